@@ -27,6 +27,8 @@ EXPLANATION = (
     ' here as well and reports under this property. R03.12: `reify=True` and `reify=False` must give the same'
     ' geometry, so the reify algebra of C02 (Rect / round shapes: guard on both skew entries, attributes ='
     ' image under scale+translate, transform left as the identity) runs here too.'
+    ' R03.13: a unit-bearing translate inside a unit-bearing translate is accumulated by Length addition before'
+    " anything is resolved, so C12's addition table (every ordered unit pair) runs here as well."
 )
 TECHNIQUE = (
     "static analysis (no execution): attribute-key tables read off property_by_values vs keys removed from the inherited dictionary; path counting of push/pop over the statement structure; typestate order render-before-reify; axis/reference agreement in render methods"
@@ -35,7 +37,7 @@ ASSUMPTIONS = [
     "SVG 1.1 property index: fill, stroke, stroke-width, opacity properties, color, font properties, display (as subtree suppression) may propagate; transform is accumulated on purpose.",
     "href/xlink:href carried by use and vector-effect (not inherited in SVG 2) also propagate today; they are reported in the evidence notes but are outside the property's geometry vocabulary.",
 ]
-FLOORS = {"R03.1": 3, "R03.2": 2, "R03.3": 2, "R03.4": 3, "R03.5": 4, "R03.7": 20, "R03.8": 8, "R03.11": 150, "R03.12": 10}
+FLOORS = {"R03.1": 3, "R03.2": 2, "R03.3": 2, "R03.4": 3, "R03.5": 4, "R03.7": 20, "R03.8": 8, "R03.11": 150, "R03.12": 10, "R03.13": 100}
 
 SHAPE_TAGS = {"SVG_TAG_PATH": "Path", "SVG_TAG_CIRCLE": "Circle", "SVG_TAG_ELLIPSE": "Ellipse", "SVG_TAG_LINE": "SimpleLine", "SVG_TAG_POLYLINE": "Polyline",
               "SVG_TAG_POLYGON": "Polygon", "SVG_TAG_RECT": "Rect", "SVG_TAG_IMAGE": "Image"}
@@ -55,6 +57,7 @@ def run(ctx):
     ctx.rule("R03.9", "nested svg origin reaches the transform with and without a viewBox")
     ctx.rule("R03.10", "viewport state is saved and restored with the element context")
     ctx.rule("R03.12", "reify=True and reify=False give the same geometry: folding the matrix into rect / round-shape attributes is exact (obligations shared with C02)")
+    ctx.rule("R03.13", "unit-bearing translations of nested transforms are accumulated by Length addition: every (unit, unit) cell of += is the CSS ratio (obligations shared with C12)")
     ctx.rule("R03.11", "the viewport transform each enclosing svg contributes is the SVG 2 8.2 one (obligations shared with C11)")
     fn = ctx.fn("SVG.parse", "R03.1")
     loop = [s for s in fn.body if isinstance(s, ast.For)]
@@ -85,6 +88,9 @@ def run(ctx):
     from . import c02
 
     c02.reify_algebra(ctx.renamed("R03.12"))
+    from . import c12
+
+    c12.iadd(ctx.renamed("R03.13"))
 
 
 def viewport_state(ctx, fn, start, end):
@@ -480,9 +486,9 @@ def result_root(ctx, fn):
 
 
 # --------------------------------------------------------------------------- R03.7
-def axis_reference(ctx):
+def axis_reference(ctx, only=None):
     n = 0
-    for cname in ("Rect", "_RoundShape", "SimpleLine", "Use", "Text", "Image", "SVG", "Pattern"):
+    for cname in (only or ("Rect", "_RoundShape", "SimpleLine", "Use", "Text", "Image", "SVG", "Pattern")):
         ci = ctx.m.cls(cname, "R03.7")
         fn = ci.methods.get("render")
         if fn is None:
@@ -526,7 +532,9 @@ def axis_reference(ctx):
                 got = role.get(rl[0].id, (None,))[0] if isinstance(rl[0], ast.Name) else None
                 ctx.ob("R03.7", "%s.render[%s]" % (cname, attr), got == want, "relative_length=%s (the viewport %s)" % (ast.unparse(rl[0]), got), s.lineno,
                        "a percentage on the %s axis must resolve against the viewport %s" % ("x" if attr in X_AXIS else "y", want))
-    ctx.need(n >= 20, "R03.7", "too few axis attributes recognised (%d)" % n)
+    ctx.need(n >= (20 if only is None else 4), "R03.7", "too few axis attributes recognised (%d)" % n)
+    if only is not None:
+        return
     # circle r: an axis-less length (SVG 1.1 7.10: normalised diagonal); today it is resolved per axis through rx/ry
     rs = ctx.fn("_RoundShape.property_by_values", "R03.7")
     src = ast.unparse(rs)
